@@ -1,4 +1,3 @@
-import Rngs.Lib.CheckedLemmas
-import Rngs.Checked.RandCore
+import Rngs.Lib.CheckedLemmasRandCore
 namespace Rngs.C14
 end Rngs.C14
